@@ -1,4 +1,5 @@
-(** C13 — basic facts about the model, the deadlock witness of the code as written *)
+(** C13 — basic facts about the model; records of the deadlock of the admission rule before
+    the fix d34a231 (model variant rep = false) *)
 From Coq Require Import List NArith Bool Arith Lia.
 From UV Require Import Model.Pool.
 Import ListNotations.
@@ -37,7 +38,7 @@ Qed.
 Definition nested2 : code :=
   [Push 5%N; Fork true 1 [Fork true 1 [Push 1%N; AddAll]; Wait 1]; Wait 1].
 
-Theorem pool_deadlock_refuted :
+Theorem pool_deadlock_refuted_pre :
   exists (prog : code) (sched : list nat),
     pure prog = true /\ fresh prog = true /\ pdepth prog = 2 /\ seqev prog [] [] = Some [6%N] /\
     let st := run sched (init 1 false prog) in
@@ -49,7 +50,7 @@ Proof.
 Qed.
 
 (** with one worker no schedule at all finishes that program *)
-Theorem pool_deadlock_every_schedule :
+Theorem pool_deadlock_every_schedule_pre :
   forall sched, final (run sched (init 1 false nested2)) = false.
 Proof. apply (all_stuck_sound 30). vm_compute. reflexivity. Qed.
 
@@ -57,7 +58,7 @@ Proof. apply (all_stuck_sound 30). vm_compute. reflexivity. Qed.
 Definition nested_wide (n : nat) : code :=
   repeat (Fork true 0 [Fork true 0 [Push 1%N]; Wait 1]) n ++ [WaitAll [] (List.seq 1 n) []].
 
-Theorem pool_deadlock_refuted_n :
+Theorem pool_deadlock_refuted_n_pre :
   forall n, In n [1; 2; 3; 4; 8] ->
   exists sched, pdepth (nested_wide n) = 2 /\
     (exists r, seqev (nested_wide n) [] [] = Some r) /\
